@@ -307,7 +307,18 @@ class SteadyEnum(Suite):
 # ------------------------------------------------------------------ (b2) line-level pre-emption inside the WSGI app itself
 
 APP_PY = os.path.join(boot.REPO, 'falcon', 'app.py')
-SINK_REQS = [('/sink/alpha/x', 's0'), ('/sink/beta/y', 's1'), ('/plain/here', 's2'), ('/nothing/here', 's3'), ('/items/7', 's4')]
+URI_FILES = tuple(os.path.join(boot.REPO, 'falcon', *p) for p in (('util', 'uri.py'), ('util', 'misc.py'), ('request_helpers.py',),
+                                                                  ('util', 'mediatypes.py'), ('media', 'handlers.py')))
+SINK_REQS = [('/sink/alpha/x', 's0'), ('/sink/beta/y', 's1'), ('/plain/here', 's2'), ('/nothing/here', 's3'), ('/items/7', 's4'),
+             ('/items/8', 's5'), ('/u/12345678123456781234567812345678', 's6')]
+# query strings with >= 8 percent-escapes each (the decoder's long path), distinct per request
+_ESC_Q = {5: 'q=%61%6C%70%68%61%2D%41%41%41%41%41&w=%C3%A9%C3%A9%C3%A9%C3%A9', 6: 'q=%62%72%61%76%6F%2D%42%42%42%42%42&w=%E2%82%AC%E2%82%AC%E2%82%AC'}
+
+
+class QEcho(Echo):
+    def on_post(self, req, resp, **kw):
+        Echo.on_post(self, req, resp, **kw)
+        resp.media = dict(resp.media, w=req.get_param('w'), accepts_json=req.client_accepts_json)
 
 
 def _named_sink(req, resp, **kw):
@@ -321,7 +332,7 @@ def _plain_sink(req, resp, **kw):
 def build_sink_app():
     app = falcon.App(middleware=[TokenMw('a')])
     for t, who in ROUTES:
-        app.add_route(t, Echo(who))
+        app.add_route(t, QEcho(who))
     app.add_sink(_named_sink, r'/sink/(?P<sid>\w+)/(?P<rest>\w+)')
     app.add_sink(_plain_sink, '/plain')
     return app
@@ -329,7 +340,8 @@ def build_sink_app():
 
 def sink_request(app, i):
     path, tok = SINK_REQS[i]
-    env = wsgi_driver.build_environ('POST', path, query='q=' + tok, headers=[('X-Token', tok), ('Content-Length', str(len(tok)))],
+    env = wsgi_driver.build_environ('POST', path, query=_ESC_Q.get(i, 'q=' + tok),
+                                    headers=[('X-Token', tok), ('Content-Length', str(len(tok))), ('Accept', 'application/json, text/*;q=0.%d' % (i + 1))],
                                     body=tok.encode())
     r = wsgi_driver.call(app, env)
     if r.error is not None:
@@ -350,7 +362,7 @@ def run_app_lines(case):
             sink_request(a2, 4)
             _SINK_SERIAL[i] = ('ok', sink_request(a2, i))
     fns = [lambda i=i: sink_request(app, i) for i in reqs]
-    sched = Scheduler(fns, case['plan'], trace_prefixes=(APP_PY,))
+    sched = Scheduler(fns, case['plan'], trace_prefixes=URI_FILES if case.get('files') == 'helpers' else (APP_PY,))
     results = sched.run()
     ctx = 'requests=%r plan=%r switches=%r' % ([SINK_REQS[i][0] for i in reqs], case['plan'], sched.switch_log[:8])
     for k, i in enumerate(reqs):
@@ -381,6 +393,11 @@ class AppLines(Suite):
         for k1 in range(0, 100, 5 if tier == 'quick' else 2):
             for k2 in range(1, 100, 5 if tier == 'quick' else 2):
                 yield {'reqs': [0, 1], 'plan': [[0, k1], [1, k2]]}
+        # the same with the yield points inside the shared helper modules (URI decoding of escape-heavy query strings,
+        # header / media-type helpers, handler resolution): two requests with >= 8 escapes each
+        for a, b in ((5, 6), (6, 5)):
+            for k in range(0, 160):
+                yield {'reqs': [a, b], 'plan': [[0, k]], 'files': 'helpers'}
 
     def run(self, case):
         return run_app_lines(case)
@@ -456,16 +473,31 @@ class ARejectMw(object):
         resp.append_header('X-Trace', 'reject:%s' % (req_succeeded,))
 
 
+class SyncOnlyHandler(falcon.media.BaseHandler):
+    """A custom media handler that implements only the synchronous methods (documented as sufficient: the
+    framework adapts it for ASGI)."""
+
+    def deserialize(self, stream, content_type, content_length):
+        return {'vf': stream.read().decode()}
+
+    def serialize(self, media, content_type):
+        return json.dumps(media).encode()
+
+
 class AEcho(object):
     def __init__(self, who):
         self.who = who
 
     async def on_post(self, req, resp, **kw):
         await AY(req)
-        body = await req.stream.read()
+        if req.content_type == 'application/x-vf':
+            media = await req.get_media()
+            body = media['vf'].encode()
+        else:
+            body = await req.stream.read()
+            media = None
         await AY(req)
-        media = None
-        if req.get_param('m'):
+        if media is None and req.get_param('m'):
             req2 = json.loads(body.decode())
             media = req2
         resp.media = {'who': self.who, 'params': {k: str(v) for k, v in sorted(kw.items())}, 'hdr': req.get_header('X-Token'),
@@ -483,6 +515,7 @@ def get_asgi_app(dependent=False):
         app = falcon.asgi.App(middleware=[AMw('a'), ARejectMw(), AMw('b')], independent_middleware=not dependent)
         for t, who in ROUTES:
             app.add_route(t, AEcho(who))
+        app.req_options.media_handlers['application/x-vf'] = SyncOnlyHandler()
         _ASGI_APP[dependent] = app
     return app
 
@@ -490,8 +523,10 @@ def get_asgi_app(dependent=False):
 def asgi_one(app, i, t, turns, chunks):
     path, tok = REQS[i]
     body = json.dumps({'tok': tok, 'pad': 'x' * 7}).encode()
+    # every other request goes through the custom sync-only media handler
+    ctype = 'application/x-vf' if i % 2 else 'application/json'
     scope = asgi_driver.build_scope('POST', path, query='q=%s&m=1' % tok,
-                                    headers=[('X-Token', tok), ('Content-Length', str(len(body))), ('Content-Type', 'application/json')],
+                                    headers=[('X-Token', tok), ('Content-Length', str(len(body))), ('Content-Type', ctype)],
                                     extra={'vf.task': t})
     events = asgi_driver.body_events(body, chunks)
     sent = []
@@ -600,7 +635,7 @@ class AsgiEnum(Suite):
 
     def cases(self, tier):
         n = 7 if tier == 'quick' else 9
-        for pair, dep in (([0, 1], False), ([2, 5], False), ([0, 7], True), ([7, 3], True)):
+        for pair, dep in (([0, 1], False), ([2, 5], False), ([0, 7], True), ([7, 3], True), ([1, 3], False)):
             for L in range(1, n + 1):
                 for w in itertools.product((0, 1), repeat=L):
                     yield {'reqs': pair, 'word': list(w), 'chunks': [5], 'dependent': dep}
